@@ -103,6 +103,10 @@ class Layout:
             raise CheckerError(f"layout: {b['path']} has {len(ret)} return blocks")
         R = ret[0]
         buf = None
+        wrap = set()     # locals of a single-field wrapper type around the buffer (`struct TaggedPayload(Vec<u8>)` threaded by value)
+        def newtype_src(pl):
+            """`(w.0)` with nothing else: the only field of a wrapper"""
+            return pl.get("p") == [".0"]
         for s in b["blocks"][R]["s"]:
             if s["d"]["l"] == 0 and s["r"].get("k") == "use" and s["r"]["op"].get("k") == "move":
                 buf = s["r"]["op"]["pl"]["l"]
@@ -111,20 +115,42 @@ class Layout:
             movs = [s for blk in b["blocks"] for s in blk["s"] if s["d"]["l"] == 0 and not s["d"].get("p") and s["r"].get("k") == "use" and s["r"]["op"].get("k") == "move" and not s["r"]["op"]["pl"].get("p")]
             if len(movs) == 1:
                 buf = movs[0]["r"]["op"]["pl"]["l"]
+            else:
+                # `_0 = move (w.0)`: the buffer is unwrapped at the end (`fn finish(self) -> Vec<u8> { self.0 }`, inlined)
+                movs = [s for blk in b["blocks"] for s in blk["s"] if s["d"]["l"] == 0 and not s["d"].get("p") and s["r"].get("k") == "use" and s["r"]["op"].get("k") == "move" and newtype_src(s["r"]["op"]["pl"])]
+                if len(movs) == 1:
+                    wrap.add(movs[0]["r"]["op"]["pl"]["l"])
         # the buffer may change hands through whole-value moves (`let mut v = header(..); ..; v` with the header inlined):
-        # all locals connected by `a = move b` are one buffer
+        # all locals connected by `a = move b` are one buffer; `w = Wrapper(move b)` / `b = move (w.0)` wrap and unwrap it
         alias = {buf} if buf is not None else set()
-        changed = buf is not None
+        changed = buf is not None or bool(wrap)
+        def fresh(l_):
+            return l_ not in alias and l_ not in wrap and l_ != 0 and not (1 <= l_ <= b["argc"])
         while changed:
             changed = False
             for blk in b["blocks"]:
                 for s in blk["s"]:
-                    if s["r"].get("k") == "use" and s["r"]["op"].get("k") == "move" and not s["d"].get("p") and not s["r"]["op"]["pl"].get("p"):
-                        a_, b_ = s["d"]["l"], s["r"]["op"]["pl"]["l"]
-                        if a_ in alias and b_ not in alias and b_ != 0 and not (1 <= b_ <= b["argc"]):
-                            alias.add(b_); changed = True
+                    rv = s["r"]
+                    if s["d"].get("p"):
+                        continue
+                    a_ = s["d"]["l"]
+                    if rv.get("k") == "use" and rv["op"].get("k") == "move":
+                        spl = rv["op"]["pl"]
+                        b_ = spl["l"]
+                        if not spl.get("p"):
+                            if a_ in alias and fresh(b_):
+                                alias.add(b_); changed = True
+                            elif a_ in wrap and fresh(b_):
+                                wrap.add(b_); changed = True
+                        elif newtype_src(spl) and a_ in alias and fresh(b_):
+                            wrap.add(b_); changed = True
+                    elif rv.get("k") == "agg" and rv.get("ak") == "adt" and a_ in wrap and len(rv.get("ops") or []) == 1:
+                        o_ = rv["ops"][0]
+                        if o_.get("k") == "move" and not o_["pl"].get("p") and fresh(o_["pl"]["l"]):
+                            alias.add(o_["pl"]["l"]); changed = True
+        self._wrap = wrap
         self._alias = alias
-        if buf is None:
+        if buf is None and not alias:
             # `fn f(..) -> Vec<u8> { g(..) }`: the payload is built by another generator - inline it
             for p_ in g["pred"][R] + [R]:
                 t = b["blocks"][p_].get("t") or {}
@@ -136,7 +162,17 @@ class Layout:
         # any loop => not a straight-line builder
         order = self._rpo(g)
         tokens = []
-        init = [d for a_ in sorted(alias) for d in self.defs.get(a_, []) if d[0] in ("assign", "call") and not (d[0] == "assign" and d[1].get("k") == "use" and d[1]["op"].get("k") == "move" and d[1]["op"]["pl"]["l"] in alias)]
+        def handover(d):
+            """a definition that only passes the buffer on: whole move inside the class, wrapping, unwrapping"""
+            if d[0] != "assign":
+                return False
+            rv = d[1]
+            if rv.get("k") == "use" and rv["op"].get("k") == "move":
+                return rv["op"]["pl"]["l"] in alias or rv["op"]["pl"]["l"] in wrap
+            if rv.get("k") == "agg" and len(rv.get("ops") or []) == 1 and rv["ops"][0].get("k") == "move":
+                return rv["ops"][0]["pl"]["l"] in alias
+            return False
+        init = [d for a_ in sorted(alias | wrap) for d in self.defs.get(a_, []) if d[0] in ("assign", "call") and not handover(d)]
         if len(init) != 1:
             raise CheckerError(f"layout: buffer of {b['path']} has {len(init)} initialisations")
         kind, r, bb0, _ = init[0]
@@ -150,7 +186,7 @@ class Layout:
         mutrefs = {}
         for blk in b["blocks"]:
             for s in blk["s"]:
-                if s["r"].get("k") == "ref" and s["r"].get("mut") and s["r"]["pl"]["l"] in alias and not s["r"]["pl"].get("p"):
+                if s["r"].get("k") == "ref" and s["r"].get("mut") and ((s["r"]["pl"]["l"] in alias and not s["r"]["pl"].get("p")) or (s["r"]["pl"]["l"] in wrap and newtype_src(s["r"]["pl"]))):
                     mutrefs[s["d"]["l"]] = True
         for i in order:
             t = b["blocks"][i].get("t") or {}
